@@ -94,6 +94,10 @@ func parsedConfig(targetLimit int) *config.Config {
 // (the transcript records whether it did).
 const NearMarginMS = 400
 
+// JustExpiredMS: a shard whose idle state is "justExpired" reports, whenever it is asked, that it has been idle for
+// max-idle-time plus this margin: by the time anything is decided about it, its idle time is over.
+const JustExpiredMS = 25
+
 // TargetSpec is one discovered target and what the explorer says about it.
 type TargetSpec struct {
 	Hash    uint64 `json:"hash"`
@@ -135,7 +139,7 @@ type ShardSpec struct {
 	// Head2: additional head series in the second runtimeinfo answer of a cycle (the answer after a
 	// configuration push): a restarted shard whose head is refilling reports more the second time
 	Head2 int64  `json:"head2,omitempty"`
-	Idle  string `json:"idle"` // expired | fresh  (meaningful when Held is empty)
+	Idle  string `json:"idle"` // expired | fresh | near | justExpired  (meaningful when Held is empty)
 	// DelayMS: the shard answers every request correctly, but only after this many milliseconds
 	DelayMS int `json:"delayMs,omitempty"`
 	// TargetsPostFail: the shard answers the status requests but not a targets update (it stops answering in the
@@ -214,6 +218,7 @@ type fakeShard struct {
 	stCalls int
 	// nearStart: the idle-since instant of a shard whose idle state is "near"
 	nearStart time.Time
+	maxIdle   time.Duration
 }
 
 func healthOf(h string) pscrape.TargetHealth {
@@ -299,6 +304,10 @@ func (f *fakeShard) getCore(path string) (data interface{}, fail error) {
 			}
 			if f.spec.Idle == "near" && !f.nearStart.IsZero() {
 				t = f.nearStart
+			}
+			if f.spec.Idle == "justExpired" {
+				// idle for a little longer than max-idle-time at the moment the shard is asked
+				t = time.Now().Add(-(f.maxIdle + JustExpiredMS*time.Millisecond))
 			}
 			ri.IdleStartAt = &t
 		}
@@ -642,7 +651,7 @@ func ExecSeq(scs []*Scenario) []*Transcript {
 						h = NearHash
 					}
 				}
-				fs := &fakeShard{spec: sp, hash: h, nearStart: nearStart}
+				fs := &fakeShard{spec: sp, hash: h, nearStart: nearStart, maxIdle: maxIdle}
 				if wire {
 					fs.host = fmt.Sprintf("c%d-r%d-s%d.wire", k, ri, si)
 					wireMu.Lock()
